@@ -219,6 +219,9 @@ func genC04(g *Rng, tier string, emit func(Op)) {
 						proof := pl[0].(*gabi.ProofD)
 						_, ts := b.TimestampRequestContributions()
 						tree := proofDTree(proof)
+						if nonrev && ambiguous(tree) {
+							continue // the known verifier ambiguity of C11 is not this property's concern
+						}
 						op := Op{"op": "memberD", "class": fmt.Sprintf("subset-k%d-nonrev%v", k, nonrev), "label": "accept", "key": kp.id,
 							"proof": tree, "context": hx(ctx), "nonce": hx(nonce), "issig": issig,
 							"attrs": hxs(cred.Attributes), "disclosed": intsAny(disclosed), "ts": hxs(ts)}
